@@ -32,6 +32,8 @@ def evaluate(d, tier, checks_override):
     meta = {}
     if os.path.exists(os.path.join(d, "meta.json")):
         meta = json.load(open(os.path.join(d, "meta.json")))
+    if meta.get("excluded") and FAST:
+        return {"name": name, "checks": {}, "patch": "excluded: " + meta["excluded"][:80], "superseded": True}
     if meta.get("superseded_by") and FAST:
         return {"name": name, "checks": {}, "patch": "superseded by repository commit " + meta["superseded_by"], "superseded": True}
     checks = checks_override or meta.get("checks") or ([meta["property"]] if "property" in meta else re.findall(r"C\d\d", name)[:1])
